@@ -170,7 +170,7 @@ class LevyCopulaModel(Model):
         if indices is None:
             indices = self._full_indices
 
-        j = next((i for i, ai, bi in zip(indices, a, b) if ai < 0 < bi), None)
+        j = next((i for i, ai, bi in zip(indices, a, b) if ai < 0 <= bi), None)
         if j is not None:
             k = indices.index(j)
             a_1, b_1 = list(a), list(b)
@@ -211,10 +211,10 @@ class LevyCopulaModel(Model):
         b1, b2 = b
 
         aux = 0
-        if a1 < 0 < b1:
+        if a1 < 0 <= b1:
             aux = self._mass_1d(a2, b2, i2)
 
-        if a2 < 0 < b2:
+        if a2 < 0 <= b2:
             aux = self._mass_1d(a1, b1, i1)
 
         u = partial(self.margin_tail_integral, indices)
@@ -233,28 +233,28 @@ class LevyCopulaModel(Model):
         b1, b2, b3 = b
 
         aux = 0
-        if a1 < 0 < b1:
+        if a1 < 0 <= b1:
             aux = self._mass_2d((a2, a3), (b2, b3), indices=[i2, i3])
-            if a2 < 0 < b2:
+            if a2 < 0 <= b2:
                 u13 = partial(self.margin_tail_integral, [i1, i3])
                 aux += u13((a1, a3)) - u13((a1, b3)) - u13((b1, a3)) + u13((b1, b3))
-            elif a3 < 0 < b3:
+            elif a3 < 0 <= b3:
                 u12 = partial(self.margin_tail_integral, [i1, i2])
                 aux += u12((a1, a2)) - u12((a1, b2)) - u12((b1, a2)) + u12((b1, b2))
-        elif a2 < 0 < b2:
+        elif a2 < 0 <= b2:
             aux = self._mass_2d((a1, a3), (b1, b3), indices=[i1, i3])
-            if a1 < 0 < b1:
+            if a1 < 0 <= b1:
                 u23 = partial(self.margin_tail_integral, [i2, i3])
                 aux += u23((a2, a3)) - u23((a2, b3)) - u23((b2, a3)) + u23((b2, b3))
-            elif a3 < 0 < b3:
+            elif a3 < 0 <= b3:
                 u12 = partial(self.margin_tail_integral, [i1, i2])
                 aux += u12((a1, a2)) - u12((a1, b2)) - u12((b1, a2)) + u12((b1, b2))
-        elif a3 < 0 < b3:
+        elif a3 < 0 <= b3:
             aux = self._mass_2d((a1, a2), (b1, b2), indices=[i1, i2])
-            if a1 < 0 < b1:
+            if a1 < 0 <= b1:
                 u23 = partial(self.margin_tail_integral, [i2, i3])
                 aux += u23((a2, a3)) - u23((a2, b3)) - u23((b2, a3)) + u23((b2, b3))
-            elif a2 < 0 < b2:
+            elif a2 < 0 <= b2:
                 u13 = partial(self.margin_tail_integral, [i1, i3])
                 aux += u13((a1, a3)) - u13((a1, b3)) - u13((b1, a3)) + u13((b1, b3))
 
